@@ -16,8 +16,8 @@ CHECKS = {
         "pkg": "pkg/protoio",
         "test": "TestVerifC18",
         "level": "exploration",
-        "quick": {"seconds": 25, "checks_per_proc": 4000},
-        "thorough": {"seconds": 240, "checks_per_proc": 20000},
+        "quick": {"procs": 32, "checks_per_proc": 20000},
+        "thorough": {"procs": 64, "checks_per_proc": 100000},
         "rule": "one case = (variant, limit, frame sizes incl. limit-1/limit/limit+1, chunking of the byte "
                 "stream into reads, fault kind and byte offset); non-trivial = the stream was chunked into "
                 "more than one read or a fault (EOF, read error, write error, oversize, malformed length, "
@@ -30,8 +30,8 @@ CHECKS = {
         "pkg": "pkg/secretstore",
         "test": "TestVerifC02",
         "level": "exploration",
-        "quick": {"seconds": 25, "checks_per_proc": 300},
-        "thorough": {"seconds": 420, "checks_per_proc": 2000},
+        "quick": {"procs": 32, "checks_per_proc": 800},
+        "thorough": {"procs": 64, "checks_per_proc": 6000},
         "rule": "one case = (window W in 1..4 or 100, group type, 1-2 senders, per sender n messages and up to 3 chain-key "
                 "announcements taken at drawn counters, an arrival schedule of message deliveries / announcement deliveries / "
                 "receiver restarts with repetitions, then a final probe of every counter twice); non-trivial = the schedule "
@@ -45,8 +45,8 @@ CHECKS = {
         "pkg": "pkg/secretstore",
         "test": "TestVerifC10",
         "level": "fault_enumeration",
-        "quick": {"seconds": 30, "checks_per_proc": 40},
-        "thorough": {"seconds": 480, "checks_per_proc": 300},
+        "quick": {"procs": 32, "checks_per_proc": 250},
+        "thorough": {"procs": 64, "checks_per_proc": 1500},
         "rule": "one case = one seeded send/announce/register/open/named-key workload (window 1..4, batched or unbatched "
                 "datastore writes, contact or multi-member group) for which EVERY datastore mutation index of the sender's "
                 "and of the receiver's disk is taken as a crash point (restart on the first k mutations, batches atomic) and "
@@ -62,8 +62,8 @@ CHECKS = {
         "test": "TestVerifC15",
         "instrument": ["internal/queue"],
         "level": "exploration",
-        "quick": {"seconds": 25, "checks_per_proc": 1500},
-        "thorough": {"seconds": 300, "checks_per_proc": 10000},
+        "quick": {"procs": 32, "checks_per_proc": 12000},
+        "thorough": {"procs": 64, "checks_per_proc": 80000},
         "rule": "one case = (scenario: 1-2 producers, 1-3 unique items, optional cancellation, optional concurrent Pop; or 1-2 tasks of "
                 "Add/Next/NextAll/Size on the priority queue) x one goroutine schedule chosen at every instrumented lock/unlock/select "
                 "of internal/queue by the seeded scheduler (3 strategies); non-trivial = the schedule contains at least one preemption "
@@ -76,14 +76,14 @@ CHECKS = {
         "level": "exploration",
         "parts": [
             {"pkg": ".", "test": "TestVerifC16", "instrument": ["connectedness_manager.go", "internal/notify"],
-             "quick": {"seconds": 40, "checks_per_proc": 600}, "thorough": {"seconds": 420, "checks_per_proc": 6000}},
+             "quick": {"procs": 16, "checks_per_proc": 5000}, "thorough": {"procs": 32, "checks_per_proc": 40000}},
             {"pkg": "pkg/lifecycle", "test": "TestVerifC16Lifecycle", "instrument": ["pkg/lifecycle", "internal/notify"],
-             "quick": {"seconds": 40, "checks_per_proc": 1500}, "thorough": {"seconds": 420, "checks_per_proc": 10000}},
+             "quick": {"procs": 16, "checks_per_proc": 10000}, "thorough": {"procs": 32, "checks_per_proc": 80000}},
             {"pkg": "pkg/tinder", "test": "TestVerifC16PeerCache", "instrument": ["pkg/tinder/peer_cache.go", "internal/notify"],
-             "quick": {"seconds": 40, "checks_per_proc": 1000}, "thorough": {"seconds": 420, "checks_per_proc": 8000}},
+             "quick": {"procs": 16, "checks_per_proc": 7000}, "thorough": {"procs": 32, "checks_per_proc": 50000}},
         ],
-        "quick": {"seconds": 40, "checks_per_proc": 600},
-        "thorough": {"seconds": 420, "checks_per_proc": 6000},
+        "quick": {"procs": 16, "checks_per_proc": 5000},
+        "thorough": {"procs": 32, "checks_per_proc": 40000},
         "rule": "one case = (scenario: 1-2 waiters with their own 'last seen' maps, one updater performing <= 3 associate/update "
                 "operations, optional cancellation, optional pre-association) x one goroutine schedule chosen at every instrumented "
                 "lock/unlock/channel operation of connectedness_manager.go / lifecycle manager / peer cache and of internal/notify; "
@@ -97,8 +97,8 @@ CHECKS = {
         "test": "TestVerifC09",
         "instrument": ["pkg/secretstore"],
         "level": "exploration",
-        "quick": {"seconds": 30, "checks_per_proc": 300},
-        "thorough": {"seconds": 360, "checks_per_proc": 3000},
+        "quick": {"procs": 32, "checks_per_proc": 800},
+        "thorough": {"procs": 64, "checks_per_proc": 5000},
         "rule": "one case = (group type, 2-4 sender tasks x 1-4 SealEnvelope calls on 1-2 groups, optional concurrent "
                 "GetShareableChainKey/IsChainKeyKnownForDevice reader, warm-up counter) x one goroutine schedule chosen at every "
                 "instrumented lock/unlock of pkg/secretstore and at every SimDisk read/write; non-trivial = at least one preemption; "
@@ -111,8 +111,8 @@ CHECKS = {
         "test": "TestVerifC04",
         "level": "exploration",
         "proc_timeout": "60m",
-        "quick": {"seconds": 100, "checks_per_proc": 25},
-        "thorough": {"seconds": 1200, "checks_per_proc": 200},
+        "quick": {"procs": 32, "checks_per_proc": 300},
+        "thorough": {"procs": 64, "checks_per_proc": 1800},
         "rule": "one case = 2-3 real replicas (devices of one account on the account group) performing up to 15 seeded metadata "
                 "operations (7 contact operations on 2 contacts, contact-request switch/seed, group join/leave, credentials) while the "
                 "simulator chooses every delivery among all in-flight head announcements / head exchanges / block fetches (reordering, "
